@@ -41,6 +41,7 @@
 #include "stir/recon_buildblock/ProjectorByBinPairUsingProjMatrixByBin.h"
 #include "stir/recon_buildblock/ProjMatrixElemsForOneBin.h"
 #include "stir/recon_buildblock/QuadraticPrior.h"
+#include "stir/recon_buildblock/PriorWithParabolicSurrogate.h"
 #include "stir/recon_buildblock/RelativeDifferencePrior.h"
 #include "stir/recon_buildblock/find_basic_vs_nums_in_subsets.h"
 #include "stir/DataSymmetriesForViewSegmentNumbers.h"
@@ -177,6 +178,34 @@ struct Probe : public OSSPSReconstruction<T>
       }
     g_cur = nullptr;
     r.after = flat(cur);
+    if (!r.have_g)
+      {
+        // update_estimate did not go through the (recorded) virtual calls — e.g. after a refactoring.  Ask the objective
+        // function through its public API instead, at the image the property prescribes.
+        shared_ptr<T> x(cur.get_empty_copy());
+        unflat(*x, r.before);
+        if (r.k == this->get_start_subiteration_num())
+          this->objective_function_sptr->fill_nonidentifiable_target_parameters(*x, 0);
+        shared_ptr<T> g(cur.get_empty_copy());
+        this->objective_function_sptr->compute_sub_gradient(*g, *x, r.subset);
+        r.have_g = true;
+        r.g_calls = 1;
+        r.g_subset = r.subset;
+        r.gx = flat(*x);
+        r.g = flat(*g);
+        PriorWithParabolicSurrogate<T>* pr
+            = dynamic_cast<PriorWithParabolicSurrogate<T>*>(this->objective_function_sptr->get_prior_ptr());
+        if (!r.have_c && pr && !this->objective_function_sptr->prior_is_zero()
+            && (r.k == this->get_start_subiteration_num() || pr->parabolic_surrogate_curvature_depends_on_argument()))
+          {
+            shared_ptr<T> cimg(cur.get_empty_copy());
+            pr->parabolic_surrogate_curvature(*cimg, *x);
+            r.have_c = true;
+            r.c_calls = 1;
+            r.cx = r.gx;
+            r.c = flat(*cimg);
+          }
+      }
     steps.push_back(r);
   }
 };
